@@ -158,7 +158,9 @@ inline std::string words_text(const std::vector<std::string>& w) { std::string s
 
 struct Outcome { int kind = 0; std::string what; Snapshot snap; };    // 0 returned, 1 std::exception, 2 other exception
 inline Outcome run(const Cfg& cfg, const std::vector<std::string>& words, int extra_flags = 0) {
-   Outcome o; auto b = build(cfg, extra_flags); Argv av(words);
+   Outcome o; std::unique_ptr<Built> b;
+   try { b = build(cfg, extra_flags); } catch (const std::exception& e) { o.kind = 1; o.what = std::string("DEFINITION REFUSED: ") + e.what(); return o; }
+   Argv av(words);
    try { b->h->evalArguments(av.argc(), av.argv()); } catch (const std::exception& e) { o.kind = 1; o.what = e.what(); } catch (...) { o.kind = 2; o.what = "non-std exception"; }
    o.snap = snapshot(cfg, b->slots);
    vf::heartbeat();
